@@ -1,6 +1,120 @@
 import SigpyVerif.Model.Py
 import SigpyVerif.Model.Proto
+import SigpyVerif.Model.C13
+/-
+  Protocol handler for C13.  Runs `C13.gmRun`-style trajectories of the generic model over rational
+  vectors: quadratic `f(x) = ½‖Ax-b‖²` (`gradf x = Aᵀ(Ax-b)`), prox maps of sigpy.prox, scalar or
+  array-valued steps.  Square roots are looked up in the table `sq=a:s;a:s…` of values the real code
+  computed; every table entry is checked against the defining inequality of the square root
+  (relative 1e-15), a missing entry is an error.
+
+    C13 gm m= n= A= b= x0= alpha= prox=none|noop|l2:λ|box:lo:hi|l1:λ accel=0|1 k= sq=
+    C13 pd m= n= A= x0= u0= tau=s:r|a:r,.. sigma=… proxfc=<spec> proxg=<spec> gp= gd= theta= k= sq=
+  reply: `ok <state after update 1> | <state after update 2> | …`
+-/
 namespace SigpyVerif.Drv.C13
+open SigpyVerif SigpyVerif.Proto SigpyVerif.C13
+
+def parseSq (s : String) : Option (List (Rat × Rat)) :=
+  if s == "-" || s == "newton" then some [] else
+  (s.splitOn ";").mapM fun e =>
+    match e.splitOn ":" with
+    | [a, b] => do let x ← parseRat? a; let y ← parseRat? b; some (x, y)
+    | _ => none
+
+def parseStep (s : String) : Option RStep :=
+  match s.splitOn ":" with
+  | ["s", r] => (parseRat? r).map RStep.sc
+  | ["a", l] => (parseRatList? l).map RStep.ar
+  | _ => none
+
+/-- `none` (outer) = parse error; `some none` = Python `None` -/
+def parseProx (s : String) : Option (Option ProxKind) :=
+  match s.splitOn ":" with
+  | ["none"] => some none
+  | ["noop"] => some (some .noop)
+  | ["l2", lam] => (parseRat? lam).map fun l => some (.l2 l none)
+  | ["l2y", lam, y] => do let l ← parseRat? lam; let yy ← parseRatList? y; some (some (.l2 l (some yy)))
+  | ["box", lo, hi] => do let a ← parseRat? lo; let b ← parseRat? hi; some (some (.box a b))
+  | ["l1", lam] => (parseRat? lam).map fun l => some (.l1 l)
+  | _ => none
+
+def fmtStep : RStep → String
+  | .sc r => "s:" ++ fmtRat r
+  | .ar l => "a:" ++ fmtRatList l
+
+def rows (n : Nat) (flat : List Rat) : List (List Rat) :=
+  if n == 0 then [] else
+  let rec go (fuel : Nat) (l : List Rat) : List (List Rat) :=
+    match fuel with
+    | 0 => []
+    | f + 1 => if l.isEmpty then [] else l.take n :: go f (l.drop n)
+  go flat.length flat
+
+def sumSq (a : List Rat) : Rat := (a.map (fun v => v * v)).foldl (· + ·) 0
+
+def handleGM (toks : List String) : String :=
+  let getR (k : String) := (kv toks k).bind parseRat?
+  let getL (k : String) := (kv toks k).bind parseRatList?
+  let getN (k : String) := ((kv toks k).bind parseInt?).map Int.toNat
+  match getN "m", getN "n", getL "A", getL "b", getL "x0", getR "alpha", (kv toks "prox").bind parseProx,
+        getN "accel", getN "k", (kv toks "sq").bind parseSq with
+  | some m, some n, some a, some b, some x0, some alpha, some prox, some acc, some k, some tab =>
+    if a.length ≠ m * n ∨ b.length ≠ m ∨ x0.length ≠ n then "err size" else
+    if tab.any (fun p => !sqOk p.1 p.2) then "err sqrt-bad" else
+    let A := rows n a
+    let AT := transpose n A
+    let gradf : RVec → RVec := fun x => matVec AT (matVec A x - ⟨b⟩)
+    let proxg : Option (Rat → RVec → RVec) := prox.map (fun p al v => p.apply (.sc al) v)
+    let accel := acc == 1
+    let sq := if kv toks "sq" == some "newton" then sqApprox else sqLookup tab
+    let rec go (fuel : Nat) (s : GMState Rat RVec) (out : List String) : Option (List String) :=
+      match fuel with
+      | 0 => some out.reverse
+      | f + 1 =>
+        let s' := gmStep sq gradf proxg alpha accel s
+        if accel && decide (s'.t < 1) then none else
+        let r2 := sumSq (s'.x - s.x).d / (alpha * alpha)
+          + (if accel then sumSq (s'.x - s.z).d / (alpha * alpha) else 0)
+        go f s' (s!"x={fmtRatList s'.x.d} z={fmtRatList s'.z.d} t={fmtRat s'.t} r2={fmtRat r2}" :: out)
+    match go k (gmInit ⟨x0⟩) [] with
+    | some out => "ok " ++ " | ".intercalate out
+    | none => "err sqrt-missing"
+  | _, _, _, _, _, _, _, _, _, _ => "err bad-op"
+
+def handlePD (toks : List String) : String :=
+  let getR (k : String) := (kv toks k).bind parseRat?
+  let getL (k : String) := (kv toks k).bind parseRatList?
+  let getN (k : String) := ((kv toks k).bind parseInt?).map Int.toNat
+  match getN "m", getN "n", getL "A", getL "x0", getL "u0", (kv toks "tau").bind parseStep,
+        (kv toks "sigma").bind parseStep, (kv toks "proxfc").bind parseProx, (kv toks "proxg").bind parseProx,
+        getR "gp", getR "gd", getR "theta", getN "k", (kv toks "sq").bind parseSq with
+  | some m, some n, some a, some x0, some u0, some tau, some sigma, some (some pfc), some (some pg),
+    some gp, some gd, some th, some k, some tab =>
+    if a.length ≠ m * n ∨ u0.length ≠ m ∨ x0.length ≠ n then "err size" else
+    if tab.any (fun p => !sqOk p.1 p.2) then "err sqrt-bad" else
+    let A := rows n a
+    let AT := transpose n A
+    let sq := if kv toks "sq" == some "newton" then sqApprox else sqLookup tab
+    let accelerating := (decide (0 < gp) && gd == 0) || (gp == 0 && decide (0 < gd))
+    let rec go (fuel : Nat) (s : PDState Rat RVec RVec RStep RStep) (out : List String) : Option (List String) :=
+      match fuel with
+      | 0 => some out.reverse
+      | f + 1 =>
+        let s' := pdStep sq (matVec A) (matVec AT) pfc.apply pg.apply gp gd th s
+        if accelerating && (s'.tau.minAbs == 0 || s'.sigma.minAbs == 0) then none else
+        let r2 := sumSqDiv (s'.x - s.x).d (s'.tau.expand n) + sumSqDiv (s.x_ext - s.x).d (s'.tau.expand n)
+          + sumSqDiv (s'.u - s.u).d (s.sigma.expand m)
+        go f s' (s!"x={fmtRatList s'.x.d} u={fmtRatList s'.u.d} xe={fmtRatList s'.x_ext.d} tau={fmtStep s'.tau} sigma={fmtStep s'.sigma} r2={fmtRat r2}" :: out)
+    match go k (pdInit RStep.minAbs RStep.minAbs ⟨x0⟩ ⟨u0⟩ tau sigma) [] with
+    | some out => "ok " ++ " | ".intercalate out
+    | none => "err sqrt-missing"
+  | _, _, _, _, _, _, _, _, _, _, _, _, _, _ => "err bad-op"
+
 /-- protocol handler for property C13 (tokens after the property id). -/
-def handle (_toks : List String) : String := "err bad-op"
+def handle (toks : List String) : String :=
+  match toks.head? with
+  | some "gm" => handleGM toks
+  | some "pd" => handlePD toks
+  | _ => "err bad-op"
 end SigpyVerif.Drv.C13
